@@ -485,6 +485,22 @@ func baseCase(t *rapid.T) Case {
 		run.Label("family:long-lines")
 		return c
 	}
+	if rapid.IntRange(0, 5).Draw(t, "lateDefect") == 0 {
+		// a defect that Check (not the scanner) finds, placed at the very end of a longer schema: the
+		// position of the complaint must still lie inside the text
+		bad := rapid.SampledFrom([]string{
+			`1 // {or: [{type: "string", min: 1}, "integer"]}`, `"s" // {or: [{type: "integer", minLength: 1}, {type: "string"}]}`,
+			`1 // {minLength: 1}`, `"s" // {min: 1, max: 0}`, `1 // {or: [{min: 5, max: 1}, {type: "integer"}]}`, `1 // {type: "string"}`,
+			`2 // {enum: [1, 3]}`, `1 // {foo: 1}`, `@nowhere`, `1 // {or: [{type: "email", minLength: 1}, "integer"]}`, `[] // {or: [{type: "array", minItems: 1}, "string"]}`,
+		}).Draw(t, "lateDefectText")
+		c.Schema = "{\n  \"rest\": " + strings.ReplaceAll(c.Schema, "\n", "\n  ") + ",\n  \"filler\": \"" + strings.Repeat("f", rapid.IntRange(0, 60).Draw(t, "filler")) + "\",\n  \"bad\": " + bad + "\n}"
+		if rapid.Bool().Draw(t, "lateDefectInType") {
+			// ... or at the end of an added type
+			c.Types = append(c.Types, [2]string{"@late", c.Schema})
+			c.Schema = "{\n  \"t\": @late\n}"
+		}
+		run.Label("family:defect-at-the-end-of-the-text")
+	}
 	if rapid.IntRange(0, 5).Draw(t, "percentDoc") == 0 {
 		c.Docs = append(c.Docs, rapid.SampledFrom([]string{`{"%!": 1, "%!s(MISSING)": "%!"}`, `"%!"`, `["%d", "%!v(PANIC=x)"]`, `{"id": "%!"}`}).Draw(t, "percentDocText"))
 	}
